@@ -863,7 +863,7 @@ pub const FIXED: [&str; 27] = [
     "(1..3) ~# (1 2)",
 ];
 
-pub const BOUNDARY_LITS: [&str; 59] = [
+pub const BOUNDARY_LITS: [&str; 65] = [
     "2147483647",
     "2147483648",
     "0",
@@ -924,6 +924,13 @@ pub const BOUNDARY_LITS: [&str; 59] = [
     "\"\"",
     ":héllo",
     "(:名前 = 1, :b = \"é\")",
+    // a character and a byte value (cast targets), code points around the surrogate block and past the last one
+    "(\"a\" . 0)",
+    "('a' . 0)",
+    "55296",
+    "57343",
+    "1114112",
+    "((1, 2, 3) <~ ((0 - 1)..1))",
 ];
 
 pub const BOUNDARY_OPS: [&str; 36] = [
